@@ -358,31 +358,46 @@ def run_objects(case, part):
                     import stix2.utils as SU
                     value = SU.parse_into_datetime(text, precision=pp, precision_constraint=cc)
                     inst = tsfmt.truncate(inst, pp, cc)
-                kwargs = dict(kw)
-                for pn in props:
-                    kwargs[pn] = value
-                part.evaluations += 1
-                part.transitions += 1
-                sub = {"kind": "object1", "version": ver, "class": cls, "value": text, "form": form}
-                k, r = lib_call(lambda: json.loads(C(**kwargs).serialize()))
-                if k != "ok":
-                    part.outcome("object-refused")
-                    if y >= 1000:
-                        part.violation("C15/object-refused/%s" % k, "valid timestamp refused by an object", sub, "accepted", [k, r], repro_for(sub))
-                    continue
-                for pn, alts in props.items():
-                    alts = alts if isinstance(alts, list) else [alts]
-                    (p, c) = alts[0]
-                    exp = tsfmt.fmt(inst, p, c)
-                    got = r.get(pn)
-                    part.state(("object", ver, cls, pn, got))
-                    if got not in [tsfmt.fmt(inst, pp, cc) for (pp, cc) in alts]:
-                        clsf = classify(got, exp, y) if isinstance(got, str) else "missing"
-                        key = "C15/year-not-four-digits" if clsf == "year-not-four-digits" else "C15/object/wrong-text/%s/%s-%s" % (clsf, p, c)
-                        part.violation(key, "timestamp property serialized in a non-canonical form", dict(sub, property=pn), exp, got, repro_for(sub))
-                        part.outcome("object-mismatch:" + clsf)
+                for route in ("constructor",) + (("factory(created=)", "factory.set_default_created", "environment.create") if "created" in props and cls != "MarkingDefinition" else ()):
+                    kwargs = dict(kw)
+                    for pn in props:
+                        kwargs[pn] = value
+                    part.evaluations += 1
+                    part.transitions += 1
+                    sub = {"kind": "object1", "version": ver, "class": cls, "value": text, "form": form, "route": route}
+                    if route == "constructor":
+                        k, r = lib_call(lambda: json.loads(C(**kwargs).serialize()))
                     else:
-                        part.outcome("object-match")
+                        # the wrappers: 'created' arrives as a factory DEFAULT instead of an argument; what is written must be the same
+                        kw2 = {a: b for a, b in kwargs.items() if a != "created"}
+
+                        def via():
+                            if route == "factory(created=)":
+                                return stix2.ObjectFactory(created=value).create(C, **kw2)
+                            f = stix2.ObjectFactory()
+                            f.set_default_created(value)
+                            if route == "factory.set_default_created":
+                                return f.create(C, **kw2)
+                            return stix2.Environment(factory=f).create(C, **kw2)
+                        k, r = lib_call(lambda: json.loads(via().serialize()))
+                    if k != "ok":
+                        part.outcome("object-refused")
+                        if y >= 1000:
+                            part.violation("C15/object-refused/%s" % k, "valid timestamp refused by an object", sub, "accepted", [k, r], repro_for(sub))
+                        continue
+                    for pn, alts in props.items():
+                        alts = alts if isinstance(alts, list) else [alts]
+                        (p, c) = alts[0]
+                        exp = tsfmt.fmt(inst, p, c)
+                        got = r.get(pn)
+                        part.state(("object", ver, cls, pn, got))
+                        if got not in [tsfmt.fmt(inst, pp, cc) for (pp, cc) in alts]:
+                            clsf = classify(got, exp, y) if isinstance(got, str) else "missing"
+                            key = "C15/year-not-four-digits" if clsf == "year-not-four-digits" else "C15/object/wrong-text/%s/%s-%s" % (clsf, p, c)
+                            part.violation(key, "timestamp property serialized in a non-canonical form", dict(sub, property=pn), exp, got, repro_for(sub))
+                            part.outcome("object-mismatch:" + clsf)
+                        else:
+                            part.outcome("object-match")
 
 
 def run_case(case, part):
